@@ -32,12 +32,17 @@ package types
 //@ func PbToBlockHeader
 //@   property C09
 //@   requires h != nil ==> forall i int :: 0 <= i && i < len(h.Transactions) ==> h.Transactions[i] != nil
-//@   loop 0: invariant fresh(hashes)
+//@   loop 0: invariant fresh(hashes) && len(hashes) == rangeidx() + 1
 //@   loop 1: invariant fresh(hashes2)
 //@   ensures [height] result != nil && h.Height != nil ==> result.Height == *h.Height
 //@   ensures [nonce]  result != nil && h.Nonce != nil ==> result.Nonce == *h.Nonce
 //@   ensures [qn]     result != nil && h.TotalQN != nil ==> result.TotalQN == *h.TotalQN
 //@   ensures [absent] result != nil ==> (h.Height == nil ==> result.Height == 0) && (h.Nonce == nil ==> result.Nonce == 0) && (h.TotalQN == nil ==> result.TotalQN == 0)
+//@   # a prove value that is present on the wire (also the empty byte string, which is how zero travels)
+//@   # stays present; an absent one stays absent
+//@   ensures [pvpresent] result != nil ==> ((h.ProveValue == nil) == (result.ProveValue == nil))
+//@   ensures [bytes]  result != nil ==> ref(result.Signature) == ref(h.Signature) && len(result.Signature) == len(h.Signature) && ref(result.Castor) == ref(h.Castor) && len(result.Castor) == len(h.Castor) && ref(result.GroupId) == ref(h.GroupId) && len(result.GroupId) == len(h.GroupId) && ref(result.Random) == ref(h.Random) && len(result.Random) == len(h.Random) && ref(result.ExtraData) == ref(h.ExtraData) && len(result.ExtraData) == len(h.ExtraData)
+//@   ensures [txcount] result != nil ==> len(result.Transactions) == len(h.Transactions)
 //@   modifies nothing
 
 //@ func PbToBlock
@@ -88,12 +93,15 @@ package types
 //@ func BlockHeaderToPb
 //@   property C09
 //@   requires h != nil
-//@   loop 0: invariant fresh(txHashes)
+//@   loop 0: invariant fresh(txHashes) && len(txHashes) == rangeidx() + 1
 //@   loop 1: invariant fresh(hashBytes2)
 //@   ensures [height] result != nil ==> result.Height != nil && *result.Height == h.Height
 //@   ensures [nonce]  result != nil ==> result.Nonce != nil && *result.Nonce == h.Nonce
 //@   ensures [qn]     result != nil ==> result.TotalQN != nil && *result.TotalQN == h.TotalQN
 //@   ensures [sig]    result != nil ==> ref(result.Signature) == ref(h.Signature) && len(result.Signature) == len(h.Signature) && ref(result.Castor) == ref(h.Castor) && ref(result.GroupId) == ref(h.GroupId) && ref(result.Random) == ref(h.Random) && ref(result.ExtraData) == ref(h.ExtraData)
+//@   ensures [pvpresent] result != nil && h.ProveValue != nil ==> result.ProveValue != nil
+//@   ensures [pvabsent]  result != nil && h.ProveValue == nil ==> result.ProveValue == nil
+//@   ensures [txcount] result != nil ==> len(result.Transactions) == len(h.Transactions)
 //@   modifies nothing
 
 //@ func GroupToPbHeader
